@@ -75,4 +75,14 @@ CHECKS["C14"] = {
     "parts": [{"bin": "C14_stop_seq", "part": "seq"}, {"bin": "C14_stop_race", "part": "race"}],
 }
 
+CHECKS["C13"] = {
+    "registered": True,
+    "engine": "pmc-rt",
+    "technique": "stateless preemption-bounded exhaustive schedule enumeration of create/join/detach/interrupt/jthread programs on a live 2-worker runtime",
+    "level_text": "Every schedule within the deviation bound of thread programs (target bodies: return, yield twice, wait for a flag, spawn and join a child; joiner: creator or another task; detach, double join, self join; jthread destructor; interrupt with a disabled window and a sibling) is executed on the real runtime; body_done at join return, joinable(), the documented error codes, the phase in which an interruption is observed and an unaffected sibling are asserted; a join that never returns shows up as a stuck execution.",
+    "level_note": "Sequentially consistent interleavings only; 2 workers; choice points at creator/joiner state words, the whole thread_data of the target and the atomics of exit-callback registration/run, thread::join, set_thread_state, interrupt_thread and stop_state (F-site).",
+    "rule": "pmc-rt: thread bodies x joiners (data choices) x all schedules within the deviation bound",
+    "parts": [{"bin": "C13_thread_join"}],
+}
+
 PENDING = {}
